@@ -4,6 +4,7 @@
    Bits + Round (one dEncrypt step is one salted Feistel round, by bit-blasting and the SPtrans sweep),
    Compose (16 rounds x 25 iterations = chained textbook DES), Output (final_perm and the output loop in bits),
    Spec (kernel-evaluated vectors), Crypt3 (fcrypt = crypt(3) for all passwords and all alphabet salts),
-   Session (the answers of a sequence of calls are the single-call answers, in every order). *)
+   Session (the answers of a sequence of calls are the single-call answers, in every order),
+   Accounts (histories of Register / Login / CheckPasswd / ChangePasswd: every entry point hands on the bytes it was given). *)
 From Verif Require Export Proofs.C02_Core Proofs.C02_Tables Proofs.C02_Sym Proofs.C02_Perm Proofs.C02_KeySched Proofs.C02_Bits
-  Proofs.C02_Round Proofs.C02_Compose Proofs.C02_Output Proofs.C02_Spec Proofs.C02_Crypt3 Proofs.C02_Session.
+  Proofs.C02_Round Proofs.C02_Compose Proofs.C02_Output Proofs.C02_Spec Proofs.C02_Crypt3 Proofs.C02_Session Proofs.C02_Accounts.
